@@ -13,13 +13,24 @@ def main():
         return setup()
     tier = a.tier if a.tier in ('quick', 'thorough') else 'quick'
     mod = importlib.import_module('props.' + a.pid.lower())
+    rep = json.load(open(a.replay)) if a.replay else None
+    if rep is not None:
+        # a replay re-runs the deterministic check that produced the file (same tier, same seed) on the current tree and
+        # reports whether the same violation (same content hash = same file name) is produced again
+        tier, a.seed = rep.get('tier', tier), int(rep.get('seed', a.seed))
     ctx = core.Ctx(a.pid, tier, a.seed)
     try:
         core.import_cpppo()
-        if a.replay:
-            return mod.replay(ctx, json.load(open(a.replay)))
+        if rep is not None:
+            print('REPLAY %s: %s' % (a.pid, rep.get('what') or rep.get('no_longer_checks')))
+            print('  witness: %s' % json.dumps(rep.get('witness') or rep.get('notes'), default=str)[:1500])
         mod.run(ctx)
-        return ctx.finish()
+        rc = ctx.finish()
+        if rep is not None:
+            again = os.path.basename(a.replay) in [os.path.basename(p) for p in ctx.replay_paths]
+            print('REPLAY %s' % ('reproduced' if again else ('not reproduced; the check %s' % ('still fails' if rc else 'passes'))))
+            return 1 if again or rc else 0
+        return rc
     except core.HarnessError as e:
         print('HARNESS-ERROR %s: %s' % (a.pid, e))
         return 2
